@@ -610,6 +610,11 @@ def weave_fn(sc, fb, reach=False):
         # termination of the loops of this function is NOT proved (option `no_decreases` of the //@fn line; listed as an assumption)
         text = '#[verifier::exec_allows_no_decreases_clause]\n' + text
         origin = [('tmpl',)] + origin
+    if not external and fb.opts.get('loop_isolation') == 'false':
+        # (unit or function option loop_isolation=false) what is known before a loop stays known inside it, so that a local introduced before
+        # a loop by a refactoring and used inside it does not break the proof
+        text = '#[verifier::loop_isolation(false)]\n' + text
+        origin = [('tmpl',)] + origin
     return _finish(fb, it, text, origin, counts, raw, external)
 
 
@@ -784,6 +789,8 @@ def process_template(tmpl_path, repo, reach=False):
         elif d == 'end':
             if fb is None:
                 raise WeaveError(f'template line {tl}: //@end without //@fn')
+            if unit.get('loop_isolation') == 'false' and 'loop_isolation' not in fb.opts:
+                fb.opts['loop_isolation'] = 'false'
             final, meta = weave_fn(sc, fb, reach=reach)
             first = len(out_lines) + 1
             emit(final, origins=meta.pop('origin'))
